@@ -42,7 +42,7 @@ def main():
             for ed in m["edits"]:
                 p = os.path.join(REPO, ed["file"])
                 t = open(p).read()
-                if t.count(ed["old"]) != 1:
+                if (t.count(ed["old"]) != 1 and not ed.get("all")) or t.count(ed["old"]) == 0:
                     raise RuntimeError("mutant %s: pattern occurs %d times in %s" % (m["name"], t.count(ed["old"]), ed["file"]))
                 open(p, "w").write(t.replace(ed["old"], ed["new"]))
             outs = []
